@@ -611,7 +611,23 @@ func editFilter(t *rapid.T, base string, hasRegexp bool) (string, string, bool) 
 }
 
 func editProjection(t *rapid.T, base string) (string, string, bool) {
-	switch rapid.IntRange(0, 5).Draw(t, "pedit") {
+	if vcase.OneIn(t, 5, "emptykeyinfix") {
+		// an empty quoted word in key position (itself rejected: "key must not be empty")
+		// in front of the destructive edit
+		base += rapid.SampledFrom([]string{` ""`, ` "" x`, `,""`, ` ""@alpha`}).Draw(t, "ekform")
+	}
+	switch rapid.IntRange(0, 6).Draw(t, "pedit") {
+	case 6:
+		switch rapid.IntRange(0, 3).Draw(t, "ekpos") {
+		case 0:
+			return base + ` ""`, "empty_key", true
+		case 1:
+			return `"" ` + base, "empty_key", true
+		case 2:
+			return base + `,"",k`, "empty_key", true
+		default:
+			return base + ` "" ` + rapid.SampledFrom([]string{"k", "pkg@bogus", "(pkg", ".unit", "k@()", `"pkg`}).Draw(t, "ektail"), "empty_key", true
+		}
 	case 0:
 		return base + " k@()", "empty_fixed_list", true
 	case 1:
